@@ -26,7 +26,7 @@ DOC_ARITY = {"none": 0, "one": 1, "two": 2, "a list value": 1, "list values": "v
 
 def stdlib_table(prog):
     """name -> implementing type path, from Functions::stdlib()"""
-    fl = [f for f in prog.fns.values() if f.name == "stdlib" and f.self_path == "tsg::functions::Functions"]
+    fl = [f for f in prog.shape_fns() if f.name == "stdlib" and f.self_path == "tsg::functions::Functions"]
     if len(fl) != 1:
         return None
     f = fl[0]
@@ -84,7 +84,7 @@ def _carriers(prog, pat):
     if key in _CARRIERS:
         return _CARRIERS[key]
     cg = prog.callgraph()
-    direct = {g.id for g in prog.fns.values() if g.body is not None and g.crate.prefix == "tsg" and any(is_callee(t, pat) for _b, t in g.body.calls())}
+    direct = {g.id for g in prog.shape_fns() if g.body is not None and g.crate.prefix == "tsg" and any(is_callee(t, pat) for _b, t in g.body.calls())}
     rev = {}
     for a, bs in cg.edges.items():
         for b in bs:
@@ -112,7 +112,7 @@ def run(prog, rep):
               "registered but undocumented: %s; documented but not registered: %s" % (sorted(set(table) - set(docs)), sorted(set(docs) - set(table))))
     impls = {}
     for name, impl in sorted(table.items()):
-        fl = [f for f in prog.fns.values() if f.trait == "tsg::functions::Function" and f.name == "call" and f.self_path == impl]
+        fl = [f for f in prog.shape_fns() if f.trait == "tsg::functions::Function" and f.name == "call" and f.self_path == impl]
         if len(fl) != 1:
             rep.violation("E8.f", "anchor-lost:impl of %s" % name, "", "Function impl %s not found" % impl)
             continue
@@ -249,7 +249,7 @@ def run(prog, rep):
     variants = {v["name"] for v in prog.adts["tsg::graph::Value"]["variants"]}
     ncv = 0
     for nm, (variant, err) in sorted(COERCE.items()):
-        fl = [g for g in prog.fns.values() if g.name == nm and g.self_path == "tsg::graph::Value" and g.trait is None]
+        fl = [g for g in prog.shape_fns() if g.name == nm and g.self_path == "tsg::graph::Value" and g.trait is None]
         if len(fl) != 1:
             rep.violation("C13.V", "anchor-lost:Value::%s" % nm, "", "not found")
             continue
@@ -362,7 +362,7 @@ def run(prog, rep):
     rep.floor("E1.a", len(sites), 10, "panic-capable sites in functions.rs")
     # ---- E2.d restricted
     rep.rule("E2.d", "no failure inside stdlib functions is dropped")
-    n2, kinds = e2.run_e2d(prog, rep, [f for f in prog.fns.values() if f.file == "src/functions.rs"], e2.ABSORB)
+    n2, kinds = e2.run_e2d(prog, rep, [f for f in prog.shape_fns() if f.file == "src/functions.rs"], e2.ABSORB)
     rep.floor("E2.d", n2, 60, "fallible calls in functions.rs")
 
 
